@@ -19,3 +19,5 @@ open Spydr.Names
 #print axioms Spydr.Names.names_unique_observable
 #print axioms Spydr.Names.idents_unique_ci_observable
 #print axioms Spydr.Names.ident_refused_iff
+#print axioms Spydr.Names.conflicts_iff
+#print axioms Spydr.Names.attach_refused_iff
